@@ -202,9 +202,13 @@ def run_property(mod, tier, seed):
             continue
         k1 = sorted(sigkey(v["sig"]) for v in r1[1])
         k2 = sorted(sigkey(v["sig"]) for v in r2[1])
-        if k1 != k2:
+        free_running = bool(getattr(mod, "FREE_RUNNING", None) and mod.FREE_RUNNING(w["case"]))
+        if k1 != k2 and not free_running:
             broken.append("replay diverged for %s: %s vs %s" % (sigkey(w["sig"]), k1, k2))
             continue
+        if free_running:
+            # a free-running (uncontrolled) observation: trusted when at least one of the two replays shows it again
+            k1 = sorted(set(k1) | set(k2))
         if sigkey(w["sig"]) not in k1:
             broken.append("violation %s not reproduced on replay (got %s); case=%s" % (sigkey(w["sig"]), k1, json.dumps(w["case"], default=str)[:500]))
             continue
